@@ -148,6 +148,13 @@ func genC19(r *Rng, tier string) []Case {
 			art := []Sx{bundleInSx(b)}
 			emit("bundle", art, lenOf("bundle", art), []string{"plain", "readfrom"})
 		}
+		// signed exchanges with an EMPTY payload in every version (no later write masks a dropped error)
+		for i := 0; i < 3; i++ {
+			e := mkExchange(r, sxgVersions[i], exOpts{contentType: true, extraResp: randExtra(r, 1), payloadLen: 0})
+			e.SignatureHeaderValue = "label;sig=*AA==*"
+			ex := []Sx{exchangeInSx(e)}
+			emit("sxg", ex, lenOf("sxg", ex), []string{"plain"})
+		}
 		// signed exchanges (incl. empty payload), header dump, signed message
 		for i := 0; i < 3; i++ {
 			ver := sxgVersions[i]
